@@ -31,8 +31,8 @@ type lockInfo struct {
 	named    *types.Named
 	st       *types.Struct
 	lockIdx  int
-	guarded  map[int]bool // field index -> guarded
-	immut    map[int]int  // field index -> number of constructor writes
+	guarded  map[int]bool         // field index -> guarded
+	immut    map[int]int          // field index -> number of constructor writes
 	ifaceG   map[*types.Named]int // interface type of a guarded field -> field index
 	mutators map[string]bool      // "Iface.Method" -> true if a package implementation mutates
 }
